@@ -738,19 +738,27 @@ def history_states(ck, ops, log, bump):
         return
     mo = vlib.run_driver("drv_c10", "\n".join(lines) + "\n")
     nbad = 0
-    def canon(text, steps):
+    def canon2(real, model, steps):
         # mfp_load overwrites the first three characters of m->basename with "smp" (recorded as patchChar writes in
-        # Gen.OpenSites.fieldWrites); the model keeps the name as given: compare such names from the 4th character on
-        t = text.split(" ")
+        # Gen.OpenSites.fieldWrites); the model keeps the name as given: such names are compared from the 4th
+        # character on -- at the mfp step itself and wherever a later step of the history still shows that module
+        # (a refused path load that fails before the release leaves the previous module and its names in place)
+        tr, tm = real.split(" "), model.split(" ")
+        names = set()
         for i, o in enumerate(steps):
             if o.fmt == "mfp":
                 for j in (6 * i + 2, 6 * i + 5):
-                    if j < len(t) and t[j] not in ("NULL", "-"):
-                        t[j] = "..." + t[j][6:]
-        return " ".join(t)
+                    if j < len(tm) and tm[j] not in ("NULL", "-"):
+                        names.add(tm[j])
+        for j in range(2, max(len(tr), len(tm)), 3):
+            if j < len(tm) and tm[j] in names:
+                tm[j] = "..." + tm[j][6:]
+                if j < len(tr) and tr[j] not in ("NULL", "-"):
+                    tr[j] = "..." + tr[j][6:]
+        return " ".join(tr), " ".join(tm)
 
     for (hid, steps, real), m, l in zip(keys, mo, lines):
-        real, m = canon(real, steps), canon(m, steps)
+        real, m = canon2(real, m, steps)
         if m == real:
             ck.cov["traces_validated_against_impl"] += 1
             bump("histories_compared")
